@@ -172,7 +172,34 @@ def _canonical_flags(f, extra, flag):
         cands = sorted(set(cands))
         if len(cands) == 1:
             m[cands[0]] = w
-    return FuncView(f, rename_locals(node, m)) if m else f
+        elif not cands and w == 'is_present':
+            # the same memory under the opposite name: `is_new = cid not in self._components`
+            neg = [st.targets[0].id for st in ast.walk(node) if isinstance(st, ast.Assign) and len(st.targets) == 1
+                   and isinstance(st.targets[0], ast.Name) and isinstance(st.value, ast.Compare) and len(st.value.ops) == 1
+                   and isinstance(st.value.ops[0], ast.NotIn) and '_components' in unparse(st.value.comparators[0])]
+            if len(set(neg)) == 1:
+                import copy as _copy
+                nm = neg[0]
+
+                class Flip(ast.NodeTransformer):
+                    def visit_Name(self, n):
+                        if n.id == nm and isinstance(n.ctx, ast.Load):
+                            return ast.copy_location(ast.UnaryOp(op=ast.Not(), operand=ast.Name(id=w, ctx=ast.Load())), n)
+                        if n.id == nm:
+                            return ast.copy_location(ast.Name(id=w, ctx=n.ctx), n)
+                        return n
+
+                    def visit_Assign(self, st):
+                        self.generic_visit(st)
+                        if len(st.targets) == 1 and isinstance(st.targets[0], ast.Name) and st.targets[0].id == w and \
+                                isinstance(st.value, ast.Compare) and isinstance(st.value.ops[0], ast.NotIn):
+                            st.value = ast.Compare(left=st.value.left, ops=[ast.In()], comparators=st.value.comparators)
+                        return st
+                node = ast.fix_missing_locations(Flip().visit(_copy.deepcopy(node)))
+                flipped = True
+    if m:
+        node = rename_locals(node, m)
+    return FuncView(f, node) if node is not f.node else f
 
 
 def rule_ab(ctx, ix):
